@@ -229,7 +229,14 @@ func (w *e1World) exec(t *task, tc *taskCtx, d opDesc) {
 	case kRawHeads:
 		rec.set = l.RawHeads().Keys()
 	case kEntries:
-		rec.set = l.GetEntries().Keys()
+		m := l.GetEntries()
+		rec.set = append([]string(nil), m.Keys()...)
+		e1Yield("reader-holds-entries")
+		// what GetEntries handed out is a snapshot: it must not move under the reader, and iterating
+		// it must not involve the log any more
+		for _, e := range m.Slice() {
+			rec.seq = append(rec.seq, e.GetHash().String())
+		}
 	case kGet:
 		_, rec.flag = l.Get(d.hash)
 	case kHas:
@@ -282,7 +289,7 @@ type e1Config struct {
 
 func genE1(r *Run, prop string) (*e1World, *e1Config) {
 	w := &e1World{r: r, st: NewStore(), reg: map[string]*MEntry{}, ctx: context.Background()}
-	cfg := &e1Config{prop: prop, shared: prop == "C13"}
+	cfg := &e1Config{prop: prop, shared: prop != "C14"}
 	w.byHash = r.Choose("ordering", 2) == 0
 	cfg.nlogs = 2 + r.Choose("nlogs", 2)
 	ws := E1Writers()
@@ -704,6 +711,9 @@ func (w *e1World) evaluate(s *sched, cfg *e1Config) {
 				r.Violate(prop+":read-state", "%s on %s returned %v, which are the heads of no state the log had during the call (%s)", kindNames[o.d.kind], w.names[i], w.names_(hs), describe())
 			}
 		case kEntries:
+			if joinS(sortedCopy(o.set)) != joinS(sortedCopy(o.seq)) {
+				r.Violate(prop+":snapshot-moved", "the entries returned by GetEntries on %s changed while the reader held them: %d then %d", w.names[i], len(o.set), len(o.seq))
+			}
 			ss := map[string]bool{}
 			for _, h := range o.set {
 				ss[h] = true
@@ -735,7 +745,7 @@ func (w *e1World) evaluate(s *sched, cfg *e1Config) {
 			}
 		}
 	}
-	if prop == "C13" {
+	if prop != "C14" {
 		w.porcupineCheck(all, seqs0(seqs), cfg)
 	}
 }
